@@ -679,7 +679,13 @@ def to_union_call(tokens):
                 acc = {op: [acc, so]}
             last_union = op
 
-        if not tokens["orderby"] and not tokens["offset"] and not tokens["limit"]:
+        if (
+            not tokens["orderby"]
+            and not tokens["offset"]
+            and not tokens["limit"]
+            and not tokens["fetch"]
+            and not tokens["locking"]
+        ):
             return acc
         else:
             output = {"from": acc}
